@@ -168,10 +168,10 @@ def compute(tier, seed):
 
 
 PREDS = {
-    "C01": ["C01_NoFalseNegative", "C01_QuerySucceeds"],
+    "C01": ["C01_NoFalseNegative", "C01_QuerySucceeds", "C01_EntryProbesComplete"],
     "C02": ["C02_OnlyMatching", "C02_AtMostStored", "C02_ExactWithoutPrefilter", "C02_BlockGranular"],
     "C03": ["C03_Faithful", "C03_IndependentOfMutation", "C03_RowsShareNothing", "C03_ConcurrentAgree"],
-    "C11": ["C11_BagUnchanged", "C11_AnswersPreserved", "C11_MergeSucceeds", "C11_PartitionKept", "C11_RangesStillCover"],
+    "C11": ["C11_BagUnchanged", "C11_AnswersPreserved", "C11_MergeSucceeds", "C11_PartitionKept", "C11_RangesStillCover", "C11_EntryProbesAfterMerge"],
     "C17": ["C17_EntryCountsMeasured", "C17_RowCount", "C17_FileEntryCounts", "C17_Layout", "C17_MetadataMatchesBytes",
             "C17_HelpersReturnWhatWasWritten"],
     "C18": ["C18_PartitionIsRowsPartition", "C18_KeysExactlyProvided", "C18_RangesCover", "C18_BlockFiltersCover",
